@@ -305,6 +305,9 @@ func c13Hosts() []model.Message {
 
 func TestC13(t *testing.T) {
 	c := probe.NewCtx(t, "C13")
+	if c.Shard == 0 {
+		endurance(c, "C13", "container-decode", 1100000)
+	}
 	// exhaustive single insertion: all 239 unsupported type codes x {front, middle, end} x both flags x hosts x {message, container}
 	for _, host := range c13Hosts() {
 		positions := map[int]bool{0: true, len(host.Payloads) / 2: true, len(host.Payloads): true}
